@@ -144,8 +144,10 @@ def register_callsite(engine):
     engine.add(Contract(
         'pydiffx.utils.text.guess_line_endings',
         params={'text': Box(), 'encoding': Box()},
+        requires=[('encoding_type', 'encoding is None or '
+                                    'isinstance(encoding, str)')],
         call_effect=gl_effect,
-        raises={LookupError: None, UnicodeError: None, TypeError: None},
+        raises={LookupError: None, UnicodeError: None},
     ))
 
     # split_lines(data, newline, keep_ends) for an abstract newline ---------
